@@ -69,13 +69,20 @@ func c05Render(t time.Time, r int) string {
 		return t.UTC().Format("2006-01-02T15:04:05.000000000Z")
 	case 6:
 		return t.In(time.FixedZone("", 5*3600+1800)).Format("2006-01-02T15:04:05.000-07:00")
+	case 7:
+		// a long fraction (12 digits) and an offset: 38 characters
+		x := t.In(time.FixedZone("", 5*3600+1800))
+		return x.Format("2006-01-02T15:04:05") + fmt.Sprintf(".%09d000", x.Nanosecond()) + x.Format("-07:00")
+	case 8:
+		// a 16-digit fraction and Z
+		return t.UTC().Format("2006-01-02T15:04:05") + fmt.Sprintf(".%09d0000000Z", t.Nanosecond())
 	}
 	panic("rendering")
 }
 
-const c05Renderings = 7
+const c05Renderings = 9
 
-var c05Malformed = []string{"absent", "empty", "garbage", "date-only", "no-zone", "slash-date", "space-separator"}
+var c05Malformed = []string{"absent", "empty", "garbage", "date-only", "no-zone", "slash-date", "space-separator", "trailing-junk", "long-fraction-then-junk"}
 
 func c05MalformedValue(kind string, t time.Time) string {
 	switch kind {
@@ -93,6 +100,11 @@ func c05MalformedValue(kind string, t time.Time) string {
 		return t.UTC().Format("2006/01/02T15:04:05Z")
 	case "space-separator":
 		return t.UTC().Format("2006-01-02 15:04:05Z")
+	case "trailing-junk":
+		return t.UTC().Format("2006-01-02T15:04:05Z") + "junk"
+	case "long-fraction-then-junk":
+		// the first 35 characters are a complete timestamp
+		return t.In(time.FixedZone("", 2*3600)).Format("2006-01-02T15:04:05.000000000-07:00") + "junk"
 	}
 	panic(kind)
 }
